@@ -74,18 +74,21 @@ Proof. vm_compute. reflexivity. Qed.
    bash prints for the compiled script -- every payload, wherever it ends (with or without a final newline, any
    bytes), followed by the divider line with the index and the exit code -- is split back into exactly those
    payloads and exit codes, for any number of test cases, provided no payload contains the divider prefix (the salt
-   is alphanumeric; indices below 2^64, codes in the i32 range). *)
+   is alphanumeric; indices below 2^64, codes in the i32 range).  Only a divider that carries the salt of the execution
+   is read as one (parse_salted). *)
 Theorem C13_divider_split_ideal : forall salt outs i, salt_ok salt -> Forall payload_ok outs ->
   i + N.of_nat (length outs) <= 18446744073709551616 ->
-  iterate (split_lines (ideal salt i outs)) [] i = Some outs.
+  iterate salt (split_lines (ideal salt i outs)) [] i = Some outs.
 Proof. exact split_ideal. Qed.
-(* the premise is needed: the listed known finding (the salt is never compared when the output is read back) *)
-Example C13_divider_prefix_in_payload_refuted :
+(* the premise is stronger than needed since the salt is compared (it used not to be: the former known finding
+   cram-divider-prefix-in-output): a payload line that looks like a divider with another salt is output like any other *)
+Example C13_divider_with_another_salt_is_output :
   let spoof := PREFIX ++ [120; 58; 58; 48; 58; 58; 48; 10] in              (* ~~~~~~~~EXECDIVIDER::x::0::0 *)
-  split_outputs (ideal [115] 0 [(spoof, 0%Z)]) <> Some [(spoof, 0%Z)].
-Proof. cbv zeta. vm_compute. discriminate. Qed.
+  split_outputs [115] (ideal [115] 0 [(spoof, 0%Z)]) = Some [(spoof, 0%Z)]
+  /\ parse_salted [115] spoof = NotFound /\ parse_divider spoof = Found [] 0 0%Z.
+Proof. cbv zeta. repeat split; vm_compute; reflexivity. Qed.
 Example C13_divider_instance :          (* two test cases: "a\nb" without final newline and exit code 3, then nothing and 0 *)
-  split_outputs (ideal [115; 65; 55] 0 [([97; 10; 98], 3%Z); ([], 0%Z)]) = Some [([97; 10; 98], 3%Z); ([], 0%Z)].
+  split_outputs [115; 65; 55] (ideal [115; 65; 55] 0 [([97; 10; 98], 3%Z); ([], 0%Z)]) = Some [([97; 10; 98], 3%Z); ([], 0%Z)].
 Proof. vm_compute. reflexivity. Qed.
 
 Print Assumptions C13_expression_last.
